@@ -39,6 +39,13 @@ class Finicky(Exception):
         self.code = code
 
 
+class FalsyFail(ValueError):
+    """an exception object whose truth value is False"""
+
+    def __len__(self):
+        return 0
+
+
 class BaseFail(BaseException):
     """a failure that is not an Exception (like SystemExit / KeyboardInterrupt)"""
 
@@ -62,7 +69,15 @@ def task(logdir, call_no, i, fails, delay, exc="TaskFail", extra=None):
         with open(os.path.join(logdir, "spawned_%d" % i), "w") as fh:
             fh.write(str(sp.pid))
         if fails:
-            time.sleep(0.5)        # let the other tasks start theirs
+            # let the other tasks start theirs: wait until every task of the call has recorded its process
+            try:
+                want = int(open(os.path.join(logdir, "spawn")).read() or 0)
+            except (OSError, ValueError):
+                want = 0
+            end = time.time() + 20
+            while time.time() < end and sum(1 for f in os.listdir(logdir) if f.startswith("spawned_")) < want:
+                time.sleep(0.05)
+            time.sleep(0.3)
     if delay:
         time.sleep(delay)
     if fails:
@@ -76,6 +91,8 @@ def task(logdir, call_no, i, fails, delay, exc="TaskFail", extra=None):
             raise BaseFail("task failed", i)
         if exc == "Finicky":
             raise Finicky(i, "task failed")
+        if exc == "FalsyFail":
+            raise FalsyFail("task failed", i)
         if exc == "UnpicklableExc":
             import threading
             raise TaskFail("task failed", i, threading.Lock())
@@ -244,7 +261,8 @@ def run(c):
     PULLS.clear()
     logdir = tempfile.mkdtemp(prefix="verif-m1real-")
     if c.get("spawn"):
-        open(os.path.join(logdir, "spawn"), "w").close()
+        with open(os.path.join(logdir, "spawn"), "w") as fh:
+            fh.write(str(c["N"]))
     if c.get("stats_leak"):
         open(os.path.join(logdir, "count_done"), "w").close()
     kw = dict(n_jobs=c["n_jobs"], batch_size=c["batch_size"], pre_dispatch=c["pre_dispatch"],
